@@ -5,6 +5,7 @@ the branch they take for a user's float and the *unmodified* source in /repo run
 return a `SymBool`; its `__bool__` asks the engine, which explores both sides by depth-first
 re-execution under a decision schedule.  Hypotheses live in named pools (see DESIGN.md 2.2).
 """
+import fractions
 import math
 import time
 import z3
@@ -56,6 +57,9 @@ def is_output_term(t):
     return res
 
 
+RATIONALIZE = [False]
+
+
 def lift(x):
     """Python / numpy scalar or SymReal -> z3 Real term (None if not a scalar)."""
     if isinstance(x, SymReal):
@@ -67,6 +71,12 @@ def lift(x):
     if isinstance(x, float):
         if math.isinf(x) or math.isnan(x):
             raise OverflowError("non-finite float in symbolic arithmetic")
+        if RATIONALIZE[0] and x != 0.0:
+            # stated modelling choice (C09): a float constant within 4 ulp of a rational with denominator <= 10^4 is read as
+            # that rational (1/3, 2/3 * 1/2 ... as written in the examples and multiplied in binary64 by the library)
+            fr = fractions.Fraction(x).limit_denominator(10 ** 4)
+            if abs(float(fr) - x) <= 4 * abs(x) * 2.0 ** -52:
+                return z3.Q(fr.numerator, fr.denominator)
         return z3.Q(*x.as_integer_ratio())
     try:
         import numpy as np
